@@ -149,6 +149,8 @@ def judge_full(st, gi, n, X, cfg):
     try:
         res = S.run_full(g, tags, deps, unary_penalty=pen, use_beta=False, pruning_size=T, nbest=1)
     except Exception as e:
+        if boot.harness_limit(e):
+            raise boot.HarnessError(f'the emulation of parsing.pyx cannot express what the file does: {e!r}')
         st.violation(f'engine_error/{g.name}', f'depccg.parsing.run raised {e!r}', x=X[0].tolist(), **base)
         return
     if len(res) != X.shape[0]:
